@@ -1,6 +1,7 @@
 package main
 
 import (
+	"bufio"
 	"encoding/json"
 	"fmt"
 	"io"
@@ -22,7 +23,7 @@ import (
 // up to length 2-3 and 2-8 concurrent clients; the numbers are read from the real admin
 // endpoints once everything is quiescent.
 
-var c13Outcomes = []string{"ok", "500", "refused", "reset-mid-body", "client-disconnect", "rate-limited", "breaker-rejected", "no-healthy-backend"}
+var c13Outcomes = []string{"ok", "500", "refused", "reset-mid-body", "client-disconnect", "rate-limited", "breaker-rejected", "no-healthy-backend", "upgraded", "upgrade-declined"}
 
 type c13wMetrics struct {
 	Total       int `json:"total_requests"`
@@ -76,7 +77,7 @@ func c13wRun(seq []string, concurrent int) (key, what, outcome string) {
 	send := func(mode, client string) string {
 		for _, fb := range fbs {
 			switch mode {
-			case "500", "refuse", "reset", "big":
+			case "500", "refuse", "reset", "big", "upgrade":
 				fb.SetMode(mode)
 			default:
 				fb.SetMode("healthy")
@@ -91,6 +92,31 @@ func c13wRun(seq []string, concurrent int) (key, what, outcome string) {
 		}
 		defer c.Close()
 		c.SetDeadline(time.Now().Add(15 * time.Second))
+		if mode == "upgrade" || mode == "ask-upgrade" {
+			// a protocol switch: accepted by the backend (tunnel, a few bytes echoed, client closes)
+			// or declined (ordinary answer)
+			fmt.Fprintf(c, "GET /ws HTTP/1.1\r\nHost: x.test\r\nX-Forwarded-For: %s\r\nConnection: Upgrade\r\nUpgrade: websocket\r\n\r\n", client)
+			br := bufio.NewReader(c)
+			line, _ := br.ReadString('\n')
+			if strings.Contains(line, " 101 ") {
+				for {
+					l, err := br.ReadString('\n')
+					if err != nil || l == "\r\n" {
+						break
+					}
+				}
+				c.Write([]byte("ping"))
+				echo := make([]byte, 4)
+				io.ReadFull(br, echo)
+				c.Close()
+				time.Sleep(50 * time.Millisecond)
+				return "101"
+			}
+			if len(line) >= 12 {
+				return line[9:12]
+			}
+			return "closed"
+		}
 		fmt.Fprintf(c, "GET /x HTTP/1.1\r\nHost: x.test\r\nX-Forwarded-For: %s\r\nConnection: close\r\n\r\n", client)
 		if mode == "big" {
 			buf := make([]byte, 2048)
@@ -127,6 +153,10 @@ func c13wRun(seq []string, concurrent int) (key, what, outcome string) {
 			par("reset")
 		case "client-disconnect":
 			par("big")
+		case "upgraded":
+			par("upgrade")
+		case "upgrade-declined":
+			par("ask-upgrade")
 		case "rate-limited":
 			do("healthy", "10.6.9.9")
 			do("healthy", "10.6.9.9") // the second one from the same client is over the bucket of 1
@@ -264,7 +294,7 @@ func TestVerifC13W(t *testing.T) {
 		}
 	}
 	r.AddScenario(vres.Scenario{Name: "accounting-over-the-wire", Engine: "W", Evaluations: evals, Distinct: int64(outs.N()), Outcomes: outs.N(),
-		Rule:       "one evaluation = one sequence of real outcomes (ok, 500, refused, reset mid-body, client disconnect, rate-limited, breaker-rejected, no-healthy-backend) with 1-8 concurrent clients against a fresh instance, audited through the real /v1/metrics and /v1/backends at quiescence; distinct = distinct (sequence, clients) cases",
+		Rule:       "one evaluation = one sequence of real outcomes (ok, 500, refused, reset mid-body, client disconnect, rate-limited, breaker-rejected, no-healthy-backend, accepted upgrade, declined upgrade) with 1-8 concurrent clients against a fresh instance, audited through the real /v1/metrics and /v1/backends at quiescence; distinct = distinct (sequence, clients) cases",
 		Bound:      fmt.Sprintf("%d sequences (singles x {1,4} clients, doubled outcomes%s, two mixed triples)", len(jobs), map[bool]string{true: ", all ordered pairs, x8 clients, a-ok-a triples", false: ""}[th]),
 		Exhaustive: true, Sample: sample, Extra: map[string]interface{}{"wall_s": time.Since(start).Seconds()}})
 }
